@@ -102,12 +102,16 @@ func batchBody(p batchParams, out *batchObs) func() {
 			}
 		}
 		if p.event != "" {
-			vrt.GoNamed("h:event", func() {
-				late := false
-				tm := vrt.AfterFunc(time.Hour, func() { late = true })
-				if p.evStep != 0 {
-					vrt.AwaitFirst("h:event-at-step", func() bool { return late || out.done || (p.evStep > 0 && vrt.Steps() >= p.evStep) })
-				} else {
+			late := false
+			tm := vrt.AfterFunc(time.Hour, func() { late = true })
+			spawn := vrt.GoNamed
+			if p.evStep != 0 {
+				spawn = func(name string, f func()) {
+					vrt.GoInterrupt(name, func() bool { return late || out.done || (p.evStep > 0 && vrt.Steps() >= p.evStep) }, f)
+				}
+			}
+			spawn("h:event", func() {
+				if p.evStep == 0 {
 					vrt.Await("h:event-trigger", func() bool { return late || out.done || userAttempts(cl) >= p.evAfter })
 				}
 				tm.Stop()
@@ -335,7 +339,7 @@ func c07Units(thorough bool) []*explore.Unit {
 
 // batchStepUnits: the batch context is cancelled, or the client closed, at every scheduling
 // step of a thread running client code between the start and the return of SendBatch
-// (vrt.AwaitFirst: the position of the event is a parameter, not a deviation), for the
+// (vrt.GoInterrupt: the position of the event is a parameter, not a deviation), for the
 // two-call batches whose outcome scripts have at most two letters in total.
 func batchStepUnits(thorough bool, check func(batchParams, *batchObs) func(*vrt.Result) *explore.Finding) []*explore.Unit {
 	var units []*explore.Unit
@@ -382,7 +386,7 @@ func init() {
 	register(&Prop{
 		ID: "C07", Level: "model_checking",
 		Technique:   "stateless model checking of SendBatch on the real client over a simulated cluster: every per-call outcome script x re-location / cancellation event x event position x schedules up to a deviation bound",
-		Rule:        "units = layout {two servers, one shared connection} x batch {1, 2 (two regions), 3 calls (two in one region)} x per-call outcome sequence over {fatal, retry-later, not-serving, connection-dead}* then success (all sequences of length <=2 for two calls, <=1-2 for three, <=3 for one) x event {none, cancel, table dropped (re-location fails), meta silent then cancel (re-location blocks), client closed} fired after the k-th user operation reached a server; schedules with <=1 (thorough 2) deviations where an event thread exists. Oracle: res[i] describes call i only - a call some server executed has its own payload and nil error, no result mixes a response with an error or carries another call's scripted error, every result is non-empty, allOK iff all errors are nil. Non-trivial = non-empty scripts or events. Additionally cancel / Close at EVERY scheduling step of a thread running client code inside SendBatch for the two-call batches with <=2 script letters in total (thorough: all) (vrt.AwaitFirst: the event's thread becomes the default choice at that step, so its position is a parameter of the unit and costs no deviation).",
+		Rule:        "units = layout {two servers, one shared connection} x batch {1, 2 (two regions), 3 calls (two in one region)} x per-call outcome sequence over {fatal, retry-later, not-serving, connection-dead}* then success (all sequences of length <=2 for two calls, <=1-2 for three, <=3 for one) x event {none, cancel, table dropped (re-location fails), meta silent then cancel (re-location blocks), client closed} fired after the k-th user operation reached a server; schedules with <=1 (thorough 2) deviations where an event thread exists. Oracle: res[i] describes call i only - a call some server executed has its own payload and nil error, no result mixes a response with an error or carries another call's scripted error, every result is non-empty, allOK iff all errors are nil. Non-trivial = non-empty scripts or events. Additionally cancel / Close at EVERY scheduling step of a thread running client code inside SendBatch for the two-call batches with <=2 script letters in total (thorough: all) (vrt.GoInterrupt: the event's thread is created waiting for that step and is the default choice there, so its position is a parameter of the unit and costs no deviation).",
 		Assumptions: []string{"tier L: simulated region clients deliver results per call as the real multi does"},
 		Quick:       150 * time.Second, Thorough: 25 * time.Minute,
 		Units: c07Units,
